@@ -573,9 +573,10 @@ func (e *engRunner) explicitRanges(idx int, every bool) int {
 		return idx
 	}
 	pairs := [][2]string{{"cr23", "cr01"}, {"cr23", "cr01,add"}, {"cr12", "cr01"}, {"cr01", "cr23,add"}, {"cr23", "add,cr01,add"},
-		{"cr13", "cr01"}, {"cr34", "cr02,add"}, {"cr22", "cr01"}, {"cr12", "cr34,add"}, {"cr24", "cr01,cr00,add"},
-		// a wider range arriving while a sub-range is locked (and the other way round)
-		{"cr23", "cr03"}, {"cr12", "cr03,add"}, {"cr03", "cr23"}, {"cr34", "cr04"}}
+		{"cr13", "cr01"}, {"cr34", "cr02,add"}, {"cr22", "cr01"}, {"cr12", "cr34,add"}, {"cr24", "cr01,cr00,add"}}
+	// a wider range arriving while a sub-range is locked (and the other way round); added
+	// later, with an index space of their own so that everything else keeps its index
+	wider := [][2]string{{"cr23", "cr03"}, {"cr12", "cr03,add"}, {"cr03", "cr23"}, {"cr34", "cr04"}}
 	recs := []eng.Recipe{{0, 0, 0, 0}, {0, 0, 0, 0, 0}, {30, 0, 0, 10, 0}, {-1, -2, 0, 0, 0}}
 	for pi, pr := range pairs {
 		for ri, rec := range recs {
@@ -583,6 +584,15 @@ func (e *engRunner) explicitRanges(idx int, every bool) int {
 				e.sweepPair("explicit-range-compactions", idx, engCfg(pi+ri), rec, pr[0], pr[1], "", true, every)
 			}
 			idx++
+		}
+	}
+	widx := 9000000
+	for pi, pr := range wider {
+		for ri, rec := range recs {
+			if e.c.Mine(widx) {
+				e.sweepPair("explicit-range-compactions", widx, engCfg(pi+ri), rec, pr[0], pr[1], "", true, every)
+			}
+			widx++
 		}
 	}
 	return idx
